@@ -67,6 +67,12 @@ def gen(rng, tier):
     for k in range(m):
         inst, info = GI.rand_instance(rng, allow_unset=False)
         full = GI.rand_state_for(rng, info, include_irrelevant=0.7, extra=0.0)
+        if info["dep_keys"] and rng.random() < 0.35:
+            # the fixed part also assigns a DEPENDENT variable (a state over all decision variables, with a stale value for it):
+            # evaluation reports the value of its dependency function, whether or not the stale value was fixed first
+            for dkey in info["dep_keys"]:
+                if rng.random() < 0.7:
+                    full.append([dkey, f64(GI.value_in(rng, info["kinds"][dkey], info["bounds"][dkey]))])
         nsteps = rng.choice([1, 1, 2, 2, 3])
         mask = [rng.randint(0, nsteps) for _ in full]
         steps = [[e for e, b in zip(full, mask) if b == k + 1] for k in range(nsteps)]
